@@ -3,7 +3,7 @@ from props import *
 import C04_more, C04_gen, C04_create
 import symmetry_part
 
-LEAN_MODULES = ['C04', 'C05gen'] + C04_more.LEAN_MODULES_EXTRA + C04_gen.LEAN_MODULES + C04_create.LEAN_MODULES + symmetry_part.LEAN_MODULES
+LEAN_MODULES = ['C04', 'C05gen', 'C15'] + C04_more.LEAN_MODULES_EXTRA + C04_gen.LEAN_MODULES + C04_create.LEAN_MODULES + symmetry_part.LEAN_MODULES
 
 MANIFEST = dict(
     text="One Lean theorem per operator machine: for all parameters, raw scripts and source modes, delivered trace = the documented list function (Spec.*) of the source's values and ending; "
